@@ -823,7 +823,8 @@ pub fn run(tier: Tier) -> ! {
 
     // F1: one type, every aspect
     let shapes = single_type_shapes(thorough);
-    let p1 = presentations(1, thorough);
+    // the full presentation set is cheap for one and two types; three types use it in thorough only
+    let p1 = presentations(1, true);
     let mut f1: Vec<Graph> = Vec::new();
     for s in &shapes {
         for schema in SCHEMAS {
@@ -838,7 +839,7 @@ pub fn run(tier: Tier) -> ! {
     // F2: two types, all wirings over all wrappers
     let m2 = members_over(2, WRAPS);
     let nodes2 = node_shapes(&m2, true);
-    let p2 = presentations(2, thorough);
+    let p2 = presentations(2, true);
     let pairs: Vec<(usize, usize)> = (0..nodes2.len()).flat_map(|a| (0..nodes2.len()).map(move |b| (a, b))).collect();
     let n_f2 = pairs.len();
     pairs.par_iter().for_each(|&(a, b)| {
